@@ -1,6 +1,7 @@
 CONSTANTS
   Ext <- ModifiersOnly
   Conv = "bundled"
+  Variants = FALSE
   Syntax <- ModifiersAndIntermediate
   Defects = FALSE
   Mode = "sim"
